@@ -110,6 +110,21 @@ def _get_missing():
 MISSING = _Missing()
 
 
+class Corrupt:
+    """content of a resource that is not parseable as JSON"""
+
+    def __init__(self, raw):
+        self.raw = raw
+
+    def __repr__(self):
+        return "Corrupt(%r)" % (self.raw[:80],)
+
+    def __eq__(self, other):
+        return False
+
+    __hash__ = None
+
+
 class World:
     """Resources `0, 1, 2, ...` of one backend family."""
 
@@ -152,9 +167,13 @@ class World:
         if s == "json":
             try:
                 with open(self.path(res), "rb") as f:
-                    return json.loads(f.read())
+                    raw = f.read()
             except FileNotFoundError:
                 return MISSING
+            try:
+                return json.loads(raw)
+            except ValueError:
+                return Corrupt(raw)
         if s == "redis":
             b = self.redis.data.get("r%d" % res)
             return MISSING if b is None else json.loads(b)
